@@ -807,3 +807,27 @@ def _enforce_scope_search():
                     '_enforce_scope(%s, scope_types=%r, do_raise=%r) with enforce_scope=%r gave %r, the table says %r' % (
                         safe(creds), st, dr, enf, got, want))
     return None
+
+
+@_search('policy:Rules.from_dict')
+def _rules_from_dict_search():
+    """a fresh Rules object holding one check per name of the dict (none dropped, none added), the given default rule, the
+    caller's dict left as it was"""
+    import copy
+    from oslo_policy import policy, _checks
+    vals = ['role:a', '', '@', '!', 'not (', [['role:a'], ['role:b']], [], None, False, 0, {}, [None]]
+    maps = [{}, {'a': 'role:x'}] + [{'p:x': v, 'default': ''} for v in vals] + [{'a': '@', 'b': vals[i], 'c:d': vals[-i - 1]} for i in range(len(vals))]
+    for m in maps:
+        for dflt in (None, 'default', _checks.TrueCheck()):
+            before = copy.deepcopy(m)
+            try:
+                r = policy.Rules.from_dict(m, dflt)
+            except Exception as e:      # noqa
+                return ({'rules_dict': safe(m)}, 'Rules.from_dict(%r) raised %s' % (m, type(e).__name__))
+            if type(r) is not policy.Rules or r.default_rule is not dflt:
+                return ({'rules_dict': safe(m)}, 'Rules.from_dict(%r, %r) returned %r with default rule %r' % (m, dflt, type(r).__name__, r.default_rule))
+            if set(dict.keys(r)) != set(m) or not all(isinstance(dict.__getitem__(r, k), _checks.BaseCheck) for k in m):
+                return ({'rules_dict': safe(m)}, 'Rules.from_dict(%r) holds %r' % (m, {k: str(v) for k, v in dict.items(r)}))
+            if m != before:
+                return ({'rules_dict': safe(before)}, 'Rules.from_dict changed the dict it was given: %r' % (m,))
+    return None
